@@ -79,7 +79,8 @@ def lane_rules(ctx, prog):
                 W = HOST[T]
                 # host value bits from dest bytes (little-endian host memory)
                 for hb in range(W):
-                    got = le.dest.get(hb // 8, [None] * 8)[hb % 8]
+                    mb = le.membit(W, hb)
+                    got = le.dest.get(mb // 8, [None] * 8)[mb % 8]
                     k = W - 1 - hb
                     if k < w:
                         fb = w - 1 - k
@@ -91,7 +92,7 @@ def lane_rules(ctx, prog):
                         exp = 0
                     if got != exp:
                         bad.append('host bit %d is %s, documented %s' % (hb, fmt(got), fmt(exp)))
-                inverse[('r', code, T)] = {hb: le.dest.get(hb // 8, [None] * 8)[hb % 8] for hb in range(W)}
+                inverse[('r', code, T)] = {hb: le.dest.get(le.membit(W, hb) // 8, [None] * 8)[le.membit(W, hb) % 8] for hb in range(W)}
             else:
                 # float/double reader: the integer handed to the int->float conversion must be the MSB-aligned sample
                 if not le.float_inputs:
@@ -124,7 +125,7 @@ def lane_rules(ctx, prog):
                 if T in HOST:
                     k = w - 1 - fb
                     if k < W:
-                        exp = ('s', W - 1 - k)
+                        exp = ('s', le.membit(W, W - 1 - k))
                         if not signed and fb == w - 1:
                             exp = ('n', exp[1])
                     else:
@@ -181,13 +182,14 @@ def run(ctx):
             bad.append('element size %s, code is %d byte(s)' % (esz, w // 8))
         if direct:
             swaps = [c for c in f.calls() if (c.get('callee') or '').startswith('endswap_')]
-            need_swap = (order == 'b')      # little-endian host
+            host_be = bool(prog.info.get('big_endian'))
+            need_swap = (order == 'b') != host_be      # swap exactly when the file order differs from the configured CPU order
             if bool(swaps) != need_swap and not (kn in callees):
                 # the swap may be compiled out by the constant CPU_IS_* condition: count reachable swap calls only
                 live = f.cfg.reachable_blocks()
                 swaps = [c for c in swaps if f.cfg.point(c) and f.cfg.point(c)[0] in live]
                 if bool(swaps) != need_swap:
-                    bad.append('byte swap %s but file order is %s-endian on a little-endian CPU' % ('present' if swaps else 'absent', 'big' if order == 'b' else 'little'))
+                    bad.append('byte swap %s but file order is %s-endian on a %s-endian CPU' % ('present' if swaps else 'absent', 'big' if order == 'b' else 'little', 'big' if host_be else 'little'))
             elif swaps:
                 live = f.cfg.reachable_blocks()
                 lswaps = [c for c in swaps if f.cfg.point(c) and f.cfg.point(c)[0] in live]
